@@ -367,6 +367,9 @@ func (_this *Context) MarkObject(dataType DataType) {
 		panic(fmt.Errorf("too many marked objects (%d). Max is %d", newLocalReferenceCount, _this.config.Rules.MaxLocalReferenceCount))
 	}
 
+	if newLocalReferenceCount > _this.config.Rules.MaxMarkerCount {
+		panic(fmt.Errorf("too many markers (%d). Max is %d", newLocalReferenceCount, _this.config.Rules.MaxMarkerCount))
+	}
 	id := _this.markerID
 	if _, exists := _this.markedObjects[id]; exists {
 		panic(fmt.Errorf("marker ID [%v] already exists", id))
